@@ -188,7 +188,7 @@ func Zero(t types.Type) Value {
 			return F64(0)
 		case types.UnsafePointer:
 			return Ptr{}
-		case types.UntypedNil:
+		case types.UntypedNil, types.Invalid:
 			return nil
 		}
 		panic(&InternalError{Msg: "zero of basic " + t.String()})
